@@ -4,7 +4,7 @@
 From Coq Require Import List Arith NArith ZArith Bool String.
 From Coq.Strings Require Import Byte.
 From Peppi Require Import Base.Bytes Base.Outcome Gen.Funs Model.Ubjson Model.Start Model.Parse Model.Reader Model.Writer Model.Recorder
-  Proofs.FrameStep Proofs.TableFacts Proofs.ReadProof Proofs.Incremental Proofs.C04Proof Proofs.Examples.
+  Gen.ParseEvent Proofs.FrameStep Proofs.TableFacts Proofs.ReadProof Proofs.Incremental Proofs.C04Proof Proofs.ParseLayout Proofs.Examples.
 Import ListNotations.
 
 (* for EVERY well-formed replay, in each framing regime, the parsed frame data is frames_of (version, ports, history) ... *)
@@ -61,6 +61,20 @@ Theorem C04_row_counts : forall v ports fs,
   (forall offs, f_item_off (frames_of v ports fs) = Some offs -> List.length offs = S (List.length fs)).
 Proof. exact c04_row_counts. Qed.
 
+(* the event handler whose frame bookkeeping the theorems above rest on (when a frame opens and closes in each framing
+   regime, the id checks, which column each event touches, where validity is pushed) is, arm by arm and step by step in
+   source order, the handler regenerated from src/io/slippi/de.rs parse_event on this run (Gen/ParseEvent.v) *)
+Theorem C04_event_arms_from_source : forall code buf s, handle_known code buf s = handle_known_src code buf s.
+Proof. exact handle_known_from_source. Qed.
+Theorem C04_pre_arm_from_source : forall buf s, arm_pre buf s = run_steps (steps_of "FramePre") buf s.
+Proof. exact arm_pre_from_source. Qed.
+Theorem C04_frame_start_arm_from_source : forall buf s, arm_fstart buf s = run_steps (steps_of "FrameStart") buf s.
+Proof. exact arm_fstart_from_source. Qed.
+Theorem C04_frame_end_arm_from_source : forall buf s, arm_fend buf s = run_steps (steps_of "FrameEnd") buf s.
+Proof. exact arm_fend_from_source. Qed.
+Theorem C04_game_end_arm_from_source : forall buf s, arm_end buf s = run_steps (steps_of "GameEnd") buf s.
+Proof. exact arm_end_from_source. Qed.
+
 Theorem C04_nonvacuous :
   (wf_replay ex_r37 = true /\ res_is_ok (game_start (r_start ex_r37)) = true /\ finished ex_r37 = true) /\
   (wf_replay ex_r25 = true /\ res_is_ok (game_start (r_start ex_r25)) = true) /\
@@ -78,3 +92,8 @@ Print Assumptions C04_row_items.
 Print Assumptions C04_lengths.
 Print Assumptions C04_row_counts.
 Print Assumptions C04_nonvacuous.
+Print Assumptions C04_event_arms_from_source.
+Print Assumptions C04_pre_arm_from_source.
+Print Assumptions C04_frame_start_arm_from_source.
+Print Assumptions C04_frame_end_arm_from_source.
+Print Assumptions C04_game_end_arm_from_source.
